@@ -468,7 +468,7 @@ CLAIMS = [
     Claim("c05_long_integer_step", "C05", "quick", claim_long_integer,
           "parse_long_integer counts exactly the remaining digits of an over-long integer and hands "
           "significand x radix^k (in the stated radix) to the float conversion",
-          "any number of further digits < 2^31-2 (one-step induction); 4 radixes", configs=("fast",), also=("C03", "C06", "C01", "C13")),
+          "any number of further digits < 2^31-2 (one-step induction); 4 radixes", configs=("fast",), also=("C03", "C06", "C01", "C13", "C04")),
 ]
 
 
@@ -767,14 +767,14 @@ CLAIMS += [
           "parse_decimal: every fraction digit maps (sig, exp) to (sig*10+d, exp-1) while it fits u64, further digits "
           "are skipped without changing the value, at least one digit is required, and the scanner continues with "
           "the exponent or the float conversion on exactly (sign, sig, exp)",
-          "any number of fraction digits (one-step induction on both loops), |exp| < 2^30", configs=("fast",), also=("C01", "C13", "C03", "C06")),
+          "any number of fraction digits (one-step induction on both loops), |exp| < 2^30", configs=("fast",), also=("C01", "C13", "C03", "C06", "C04")),
     Claim("c05_exponent_step", "C05", "quick", claim_exponent,
           "parse_exponent: exponent digits accumulate exactly in i32, overflow goes to the overflow handler, and the "
           "float conversion receives starting_exp +/- exp (saturating) with the unchanged significand and sign",
-          "any number of exponent digits (one-step induction)", configs=("fast",), also=("C03", "C06")),
+          "any number of exponent digits (one-step induction)", configs=("fast",), also=("C03", "C06", "C01", "C13", "C04")),
     Claim("c05_exponent_overflow", "C05", "quick", claim_exponent_overflow,
           "an exponent beyond i32 gives out-of-range for a non-zero significand with positive exponent and a signed "
-          "zero otherwise; only digits are skipped", "all inputs", configs=("fast",)),
+          "zero otherwise; only digits are skipped", "all inputs", configs=("fast",), also=("C01", "C13", "C04", "C03")),
 ]
 
 
@@ -1034,7 +1034,7 @@ CLAIMS += [
           "f64_from_parts (default build) never returns infinity or NaN: every Ok path has a finite result; the "
           "scaling loop keeps f finite and non-negative; the compiled POW10 table equals the correctly rounded powers "
           "of ten bit for bit",
-          "all (sign, u64 significand, i32 exponent > i32::MIN+400); real IEEE semantics in z3", configs=("fast",), also=("C03", "C01", "C13")),
+          "all (sign, u64 significand, i32 exponent > i32::MIN+400); real IEEE semantics in z3", configs=("fast",), also=("C03", "C01", "C13", "C04")),
     Claim("c05_ieee_axioms", "C05", "quick", claim_ieee_axioms,
           "the IEEE single-operation facts used as axioms hold (decided at half precision)", "binary16, RNE", configs=("fast",)),
     Claim("c05_f64_fast_exact", "C05", "quick", claim_f64_fast_exact,
@@ -1097,7 +1097,7 @@ CLAIMS += [
     Claim("c05_f64_std", "C05", "quick", claim_f64_std,
           "f64_from_parts (build without fast-float-parsing): the text given to str::parse::<f64> is exactly "
           "<significand>e<exponent>, the sign is applied to the result, and an infinite result is rejected",
-          "all (sign, u64, i32)", configs=("nofast",), also=("C01", "C13")),
+          "all (sign, u64, i32)", configs=("nofast",), also=("C01", "C13", "C04")),
 ]
 
 
